@@ -49,6 +49,11 @@ func (b *budgetCtx) Expire() {
 // releases the timer.
 func newBudgetCtxWithBackstop(limit int64, backstop time.Duration) (*budgetCtx, func()) {
 	b := newBudgetCtx(limit)
-	t := time.AfterFunc(backstop, b.Expire)
+	t := time.AfterFunc(backstop, func() {
+		if backstop >= time.Minute {
+			noteHang() // a long backstop is a hang watchdog (the case is re-executed, see watchdog.go); a short one is an ordinary limit
+		}
+		b.Expire()
+	})
 	return b, func() { t.Stop() }
 }
